@@ -78,6 +78,12 @@ def cases(tier, rng):
                 ops = ["bind " + tr, "conn 0"] + ["staller 0 off=%d mode=%s" % (off, mode)] * 110 + ["conn 0", "xchg 0", "xchg 111", "monitor"]
                 out.append("f%d rt %s mon / %s" % (k, t, " / ".join(ops)))
                 k += 1
+    # a peer that completed its handshake and then stops READING, while the socket has megabytes of subscriptions to replay to
+    # it: the next peer is set up and served all the same
+    for tr in ("tcp4", "ipc"):
+        for n, size in ((80, 65536), (2000, 3000)):
+            out.append("b%d rt SUB / bind %s / subbig %d %d / conn 0 / conn 0 / drain 1 / xchg 1 / conn 0 / drain 2 / xchg 2" % (k, tr, n, size))
+            k += 1
     # a client stalled in its handshake does not keep the OWNER from going on: unbind of that endpoint and close of the
     # socket return, and the well-behaved peer on the other endpoint is served in between
     for t in ("PULL", "REP", "ROUTER", "PUB"):
@@ -99,6 +105,12 @@ def judge(line, obs, orc):
     t = line.split()[2]
     ops = [p.split() for p in line.split(" / ")[1:]]
     toks = obs.split()
+    if line.startswith("b"):
+        for op, tk in zip(ops, toks):
+            if op[0] in ("bind", "subbig", "conn", "xchg") and not (tk.endswith("=ok") or tk.startswith("b#")):
+                return ("next to a peer that stopped reading while its subscriptions were being replayed, another peer could not be "
+                        "set up / served: %s -> %s" % (" ".join(op), tk))
+        return None
     if len(toks) != len(ops):
         return "observation/ops mismatch: " + obs[:100]
     stallers = []
